@@ -180,7 +180,12 @@ func handle(h *NtfnsHandler) {
 			return
 
 		case <-h.sigSuspend:
-			<-h.sigResume
+			select {
+			case <-h.sigResume:
+			case <-h.quit:
+				logging.CPrint(logging.INFO, "NtfnsHandler stopped", logging.LogFormat{})
+				return
+			}
 
 		case block := <-h.queueBlock:
 			err := h.processConnectedBlock(block)
@@ -849,7 +854,9 @@ func (h *NtfnsHandler) asyncImport(walletId string) (finish bool, err error) {
 		relatedHashes = append(relatedHashes, ma.ScriptAddress())
 	}
 
-	h.suspend(false, "[asyncImport] run", logging.LogFormat{"walletId": walletId})
+	if !h.suspend(false, "[asyncImport] run", logging.LogFormat{"walletId": walletId}) {
+		return false, ErrTaskAbort
+	}
 	defer func() {
 		h.resume(false, "[asyncImport] stop", logging.LogFormat{"walletId": walletId, "finish": finish})
 	}()
@@ -1000,7 +1007,9 @@ func (h *NtfnsHandler) asyncRemove(walletId string) error {
 		return nil
 	}
 
-	h.suspend(true, "[asyncRemove-1] deleting balance, address, staking/binding histories", logging.LogFormat{"walletId": walletId})
+	if !h.suspend(true, "[asyncRemove-1] deleting balance, address, staking/binding histories", logging.LogFormat{"walletId": walletId}) {
+		return ErrTaskAbort
+	}
 	err = mwdb.Update(h.walletMgr.db, func(wtx mwdb.DBTransaction) error {
 		err := h.walletMgr.utxoStore.RemoveUnspentByWalletId(wtx, walletId)
 		if err != nil {
@@ -1031,7 +1040,9 @@ func (h *NtfnsHandler) asyncRemove(walletId string) error {
 		case <-h.quit:
 			return ErrTaskAbort
 		default:
-			h.suspend(true, "[asyncRemove-2] deleting credits, keystore", logging.LogFormat{"walletId": walletId})
+			if !h.suspend(true, "[asyncRemove-2] deleting credits, keystore", logging.LogFormat{"walletId": walletId}) {
+				return ErrTaskAbort
+			}
 			finish := false
 			var removedTx []*wire.Hash
 			err := mwdb.Update(h.walletMgr.db, func(wtx mwdb.DBTransaction) (err error) {
@@ -1233,15 +1244,25 @@ func (h *NtfnsHandler) OnTransactionReceived(tx *wire.MsgTx) error {
 	return nil
 }
 
-func (h *NtfnsHandler) suspend(log bool, msg string, fields logging.LogFormat) {
-	h.sigSuspend <- struct{}{}
+// suspend parks the handler goroutine until resume is called. It returns false,
+// without parking anything, when the handler is shutting down.
+func (h *NtfnsHandler) suspend(log bool, msg string, fields logging.LogFormat) bool {
+	select {
+	case h.sigSuspend <- struct{}{}:
+	case <-h.quit:
+		return false
+	}
 	if log {
 		logging.VPrint(logging.INFO, msg, fields)
 	}
+	return true
 }
 
 func (h *NtfnsHandler) resume(log bool, msg string, fields logging.LogFormat) {
-	h.sigResume <- struct{}{}
+	select {
+	case h.sigResume <- struct{}{}:
+	case <-h.quit:
+	}
 	if log {
 		logging.VPrint(logging.INFO, msg, fields)
 	}
